@@ -26,7 +26,7 @@ for t, tn in TYPES:
     JOBS.append(j)
 # FIXED_LEN_BYTE_ARRAY with one concrete length per job (16 = UUID / decimal128)
 JOBS.append(dict(name='c02_next_page_flba16', entry='h_next_page', enforce='carquet_read_next_page', replace=['load_next_page'],
-                 min_loop_obligations=2, wip=True, est_s=70, timeout=600, defines=['CQV_TYPE=7', 'CQV_TL_FIX=16'],
+                 min_loop_obligations=2, wip=False, est_s=80, timeout=600, defines=['CQV_TYPE=7', 'CQV_TL_FIX=16'],
                  level='bounded', bound='FIXED_LEN_BYTE_ARRAY type_length == 16', **NP))
 # same contract with small buffers: a violation here comes with a counterexample the driver can print
 # (json traces of symbolic-size objects exhaust memory); used for the break-the-code validation
@@ -54,12 +54,12 @@ RB_BOUND = 'at most 2 loop iterations (pages) per call; values non-NULL; %s'
 for t, tn, d, r, suffix in [(1, 'int32', 1, 1, ''), (1, 'int32', 0, 0, '_nolevels'), (1, 'int32', 1, 0, '_defonly'),
                             (2, 'int64', 1, 1, ''), (0, 'boolean', 0, 0, '_nolevels'), (6, 'byte_array', 1, 0, '_defonly')]:
     JOBS.append(dict(name='c02_read_batch_%s%s' % (tn, suffix), entry='h_read_batch', enforce='carquet_column_read_batch',
-                     replace=['carquet_read_next_page'], loop_contracts=False, gi_unwind=3, wip=True, est_s=300, timeout=900, backend=['cadical', 'sat'],
+                     replace=['carquet_read_next_page'], loop_contracts=False, gi_unwind=3, wip=False, est_s=110, timeout=900, backend=['cadical', 'sat'],
                      level='bounded', bound=RB_BOUND % ('def_levels %s, rep_levels %s' % ('non-NULL' if d else 'NULL', 'non-NULL' if r else 'NULL')),
                      defines=['CQV_TYPE=%d' % t, 'CQV_RB_DEF=%d' % d, 'CQV_RB_REP=%d' % r], **CR))
 for t, tn in [(1, 'int32'), (2, 'int64'), (6, 'byte_array')]:
     JOBS.append(dict(name='c02_skip_%s' % tn, entry='h_skip', enforce='carquet_column_skip',
-                     replace=['carquet_column_read_batch'], loop_contracts=False, gi_unwind=4, wip=True, est_s=60, timeout=600,
+                     replace=['carquet_column_read_batch'], loop_contracts=False, gi_unwind=4, wip=False, est_s=60, timeout=600,
                      level='bounded', bound='at most 3 chunks of 1024 rows per call',
                      defines=['CQV_TYPE=%d' % t], **CR))
 
@@ -73,10 +73,10 @@ BR['trusted'] = CR['trusted'] + ['stubs/colreader_stubs.c: arena init/calloc/des
 BRJ = dict(entry='h_batch_next', replace=['carquet_column_read_batch', 'carquet_read_next_page', 'load_next_page'],
            functions=['carquet_batch_reader_next', 'carquet_row_batch_free'], unwind=4, min_loop_obligations=2, level='bounded')
 # one projected column out of two file columns: null bitmap (ghost row, rows unbounded), max_def index, required column
-JOBS.append(dict(name='c02_batch_next_int32', wip=True, est_s=60, timeout=600, defines=['CQV_TYPE=1', 'CQV_NP_MAX=1', 'CQV_NL_MAX=2'],
+JOBS.append(dict(name='c02_batch_next_int32', wip=False, est_s=30, timeout=600, defines=['CQV_TYPE=1', 'CQV_NP_MAX=1', 'CQV_NL_MAX=2'],
                  bound='1 projected column of 1..2 INT32 file columns, row group open; rows unbounded', **BRJ, **BR))
 # two projected columns: every column of a batch has the same number of rows
-JOBS.append(dict(name='c02_batch_rows_int32', wip=True, est_s=300, timeout=900, mem_gb=12, defines=['CQV_TYPE=1', 'CQV_NP_MAX=2', 'CQV_NL_MAX=2', 'CQV_NP_EXACT=1'],
+JOBS.append(dict(name='c02_batch_rows_int32', wip=False, est_s=300, timeout=900, mem_gb=12, defines=['CQV_TYPE=1', 'CQV_NP_MAX=2', 'CQV_NL_MAX=2', 'CQV_NP_EXACT=1'],
                  checks=['--bounds-check'],   # memory safety of the column body: c02_batch_next_int32
                  bound='exactly 2 projected columns of 2 INT32 file columns, row group open; rows unbounded',
                  note='FINDING: zero-copy path (mmap, REQUIRED column, page smaller than the batch) delivers page_num_values rows '
@@ -86,7 +86,10 @@ JOBS.append(dict(name='c02_batch_rows_int32', wip=True, est_s=300, timeout=900, 
 BR19 = dict(BR)
 BR19['cbmc_flags'] = []
 BR19['prop'] = 'C19'
-JOBS.append(dict(name='c19_batch_next_int32', wip=True, est_s=120, timeout=600, defines=['CQV_TYPE=1', 'CQV_NP_MAX=1', 'CQV_NL_MAX=2'],
+JOBS.append(dict(name='c19_batch_next_int32', wip=True, est_s=600, timeout=600, tier='thorough',
+                 note='UNDECIDED: cbmc does not finish in 600 s (symbolic execution after the column loop with failing allocations). '
+                      'FINDING shown natively (/tmp/colreader/demo_c19): failed calloc of null_bitmap / malloc of def_levels -> '
+                      'carquet_batch_reader_next returns OK with a NULL or all-zero bitmap (null rows lost)', defines=['CQV_TYPE=1', 'CQV_NP_MAX=1', 'CQV_NL_MAX=2'],
                  bound='1 projected column of 1..2 INT32 file columns, row group open; rows unbounded; any subset of allocations fails',
                  checks=['--pointer-check', '--memory-leak-check'],
                  **BRJ, **BR19))
